@@ -89,7 +89,7 @@ package lungo
 //@ func (*Engine).Commit
 //@   tags C16 C03 C05
 //@   requires e != nil && e.token != nil && txn != nil && e.store != nil && bal(e) >= 0
-//@   modifies e.txn, e.catalog, ghost.held, txn.catalog, txn.dirty
+//@   modifies e.txn, e.catalog, ghost.held, txn.catalog, txn.dirty, ghost.tainted, ghost.cov, ghost.tree
 //@   ensures [C16 name=balance] bal(e) == old(bal(e))
 //@   ensures [C16,C05 name=finished] imp(ghost.alive && old(e.txn) == txn, e.txn == nil)
 //@   ensures [C16 name=foreign-untouched] imp(old(e.txn) != txn, err != nil && e.txn == old(e.txn) && ghost.held == old(ghost.held) && e.catalog == old(e.catalog))
@@ -124,43 +124,58 @@ package lungo
 //@ define cleanCatalog(cat) = cat != nil && cat.Namespaces != nil && all(h, "(Array Int Str)", imp(has(cat.Namespaces, h), !ghost.tainted[cat.Namespaces[h]] && allocated(cat.Namespaces[h])))
 //@ define onlyTaints2(a, b) = all(x, Ref, ghost.tainted[x] == old(ghost.tainted)[x] || x == a || x == b)
 
+// ghost.appended: how many events the append helper has added to an oplog clone so
+// far (a history counter; C08: every change appears in the log exactly once).
+//@ define appendedBy(n) = ghost.appended == old(ghost.appended) + n
+//@ ghost appended Int
 //@ func (*Transaction).append
 //@   trusted
-//@   modifies since(oplog), ghost.tainted, ghost.cov, ghost.tree
+//@   modifies since(oplog), ghost.tainted, ghost.cov, ghost.tree, ghost.appended
 //@   ensures imp(err == nil, ghost.tainted == old(ghost.tainted)) && imp(err != nil, ghost.tainted == upd(old(ghost.tainted), oplog, true))
+//@   ensures imp(err == nil, appendedBy(1)) && imp(err != nil, appendedBy(0))
+//@   ensures all(r, Ref, "mongokit.Result", imp(preexisting(r), r.Matched == old(r.Matched) && r.Modified == old(r.Modified) && r.Upserted == old(r.Upserted)))
 
 //@ func (*Transaction).insert
-//@   tags C02
+//@   tags C02 C08
 //@   requires t != nil && oplog != nil && namespace != nil && doc != nil
-//@   modifies since(oplog), since(namespace), *doc, ghost.tainted, ghost.cov, ghost.tree
+//@   modifies since(oplog), since(namespace), *doc, ghost.tainted, ghost.cov, ghost.tree, ghost.appended
+//@   ensures [C08 name=one-event-per-insert] imp(err == nil, appendedBy(1))
 //@   ensures [C02 name=success-clean] imp(err == nil, ghost.tainted == old(ghost.tainted) && result0 != nil)
 //@   ensures [C02 name=failure-confined] imp(err != nil, onlyTaints2(oplog, namespace))
 //@ func (*Transaction).replace
-//@   tags C02
+//@   tags C02 C08
 //@   requires t != nil && oplog != nil && namespace != nil
-//@   modifies since(oplog), since(namespace), *repl, ghost.tainted, ghost.cov, ghost.tree
+//@   modifies since(oplog), since(namespace), *repl, ghost.tainted, ghost.cov, ghost.tree, ghost.appended
+//@   ensures [C08 name=one-event-per-upsert] imp(err == nil && result0.Upserted != nil, appendedBy(1))
+//@   ensures [C08 name=one-event-iff-modified] imp(err == nil && result0.Upserted == nil, appendedBy(ite(len(result0.Modified) > 0, 1, 0)))
+//@   ensures [C08 name=no-event-on-early-failure] imp(err != nil, appendedBy(0))
 //@   ensures [C02 name=success-clean] imp(err == nil, ghost.tainted == old(ghost.tainted) && result0 != nil)
 //@   ensures [C02 name=failure-confined] imp(err != nil, onlyTaints2(oplog, namespace))
 //@ func (*Transaction).update
-//@   tags C02
+//@   tags C02 C08
 //@   requires t != nil && oplog != nil && namespace != nil
-//@   modifies since(oplog), since(namespace), ghost.tainted, ghost.cov, ghost.tree
+//@   modifies since(oplog), since(namespace), ghost.tainted, ghost.cov, ghost.tree, ghost.appended
+//@   ensures [C08 name=one-event-per-upsert] imp(err == nil && result0.Upserted != nil, appendedBy(1))
+//@   ensures [C08 name=one-event-per-modified] imp(err == nil && result0.Upserted == nil, appendedBy(len(result0.Modified)))
 //@   ensures [C02 name=success-clean] imp(err == nil, ghost.tainted == old(ghost.tainted) && result0 != nil)
 //@   ensures [C02 name=failure-confined] imp(err != nil, onlyTaints2(oplog, namespace))
 //@   loop 0 invariant ghost.tainted == old(ghost.tainted) && res != nil
+//@   loop 0 invariant appendedBy(rangeindex + 1) && rangeindex + 1 <= len(res.Modified) && res.Modified == before(res.Modified)
 //@   locals res err i doc
 // ghost.removed: how many documents the delete helper has removed so far (a
 // history counter: every successful call adds the number of documents it matched).
 //@ define removedBy(n) = old(ghost.removed) + n
 //@ ghost removed Int
 //@ func (*Transaction).delete
-//@   tags C02 C19
+//@   tags C02 C19 C08
 //@   requires t != nil && oplog != nil && namespace != nil
-//@   modifies since(oplog), since(namespace), ghost.tainted, ghost.cov, ghost.tree, ghost.removed
+//@   modifies since(oplog), since(namespace), ghost.tainted, ghost.cov, ghost.tree, ghost.removed, ghost.appended
 //@   ensures [ghostdef] imp(err == nil, ghost.removed == removedBy(len(result0.Matched))) && imp(err != nil, ghost.removed == old(ghost.removed))
+//@   ensures [C08 name=one-event-per-deleted] imp(err == nil, appendedBy(len(result0.Matched)))
 //@   ensures [C02 name=success-clean] imp(err == nil, ghost.tainted == old(ghost.tainted) && result0 != nil)
 //@   ensures [C02 name=failure-confined] imp(err != nil, onlyTaints2(oplog, namespace))
 //@   loop 0 invariant ghost.tainted == old(ghost.tainted) && res != nil
+//@   loop 0 invariant appendedBy(rangeindex + 1) && rangeindex + 1 <= len(res.Matched) && res.Matched == before(res.Matched)
 //@   locals res err doc
 
 // Insert: per item a fresh clone of the namespace and of the oplog; a failing
@@ -172,7 +187,7 @@ package lungo
 //@   opt loopframe = on
 //@   locals err clone result doc namespace oplog res
 //@   requires t != nil && cleanCatalog(t.catalog) && has(t.catalog.Namespaces, Oplog) && t.catalog.Namespaces[Oplog] != nil
-//@   modifies t.catalog, t.dirty, ghost.tainted, ghost.cov, ghost.tree
+//@   modifies t.catalog, t.dirty, ghost.tainted, ghost.cov, ghost.tree, ghost.appended
 //@   ensures [C02 name=error-leaves-state] imp(err != nil, t.catalog == old(t.catalog) && t.dirty == old(t.dirty))
 //@   ensures [C02,C15 lemma name=only-fresh-tainted] all(x, Ref, imp(preexisting(x), ghost.tainted[x] == old(ghost.tainted)[x]))
 //@   ensures [C02,C15 lemma name=old-or-clean-clone] t.catalog == old(t.catalog) || cleanCatalog(t.catalog)
@@ -190,7 +205,7 @@ package lungo
 //@   opt loopframe = on
 //@   locals err clone changes results op namespace oplog res
 //@   requires t != nil && cleanCatalog(t.catalog) && has(t.catalog.Namespaces, Oplog) && t.catalog.Namespaces[Oplog] != nil
-//@   modifies t.catalog, t.dirty, ghost.tainted, ghost.cov, ghost.tree
+//@   modifies t.catalog, t.dirty, ghost.tainted, ghost.cov, ghost.tree, ghost.appended, ghost.removed
 //@   ensures [C02 name=error-leaves-state] imp(err != nil, t.catalog == old(t.catalog) && t.dirty == old(t.dirty))
 //@   ensures [C02,C15 lemma name=only-fresh-tainted] all(x, Ref, imp(preexisting(x), ghost.tainted[x] == old(ghost.tainted)[x]))
 //@   ensures [C02,C15 lemma name=old-or-clean-clone] t.catalog == old(t.catalog) || cleanCatalog(t.catalog)
@@ -220,24 +235,29 @@ package lungo
 //@   ensures [C02,C15 name=published-clean] cleanCatalog(t.catalog)
 
 //@ func (*Transaction).Replace
-//@   tags C02 C03 C15
+//@   tags C02 C03 C15 C08
 //@   requires repl != nil
 //@   requires t != nil && cleanCatalog(t.catalog) && has(t.catalog.Namespaces, Oplog) && t.catalog.Namespaces[Oplog] != nil
-//@   modifies t.catalog, t.dirty, ghost.tainted, ghost.cov, ghost.tree
+//@   modifies t.catalog, t.dirty, ghost.tainted, ghost.cov, ghost.tree, ghost.appended
 //@   ensures [C02 name=error-leaves-state] imp(err != nil, t.catalog == old(t.catalog) && t.dirty == old(t.dirty))
 //@   ensures [C02,C15 name=published-clean] cleanCatalog(t.catalog)
+//@   ensures [C08 name=one-event-per-upsert] imp(err == nil && result0.Upserted != nil, appendedBy(1))
+//@   ensures [C08 name=one-event-iff-modified] imp(err == nil && result0.Upserted == nil, appendedBy(ite(len(result0.Modified) > 0, 1, 0)))
 //@ func (*Transaction).Update
-//@   tags C02 C03 C15
+//@   tags C02 C03 C15 C08
 //@   requires t != nil && cleanCatalog(t.catalog) && has(t.catalog.Namespaces, Oplog) && t.catalog.Namespaces[Oplog] != nil
-//@   modifies t.catalog, t.dirty, ghost.tainted, ghost.cov, ghost.tree
+//@   modifies t.catalog, t.dirty, ghost.tainted, ghost.cov, ghost.tree, ghost.appended
 //@   ensures [C02 name=error-leaves-state] imp(err != nil, t.catalog == old(t.catalog) && t.dirty == old(t.dirty))
 //@   ensures [C02,C15 name=published-clean] cleanCatalog(t.catalog)
+//@   ensures [C08 name=one-event-per-upsert] imp(err == nil && result0.Upserted != nil, appendedBy(1))
+//@   ensures [C08 name=one-event-per-modified] imp(err == nil && result0.Upserted == nil, appendedBy(len(result0.Modified)))
 //@ func (*Transaction).Delete
-//@   tags C02 C03 C15
+//@   tags C02 C03 C15 C08
 //@   requires t != nil && cleanCatalog(t.catalog) && has(t.catalog.Namespaces, Oplog) && t.catalog.Namespaces[Oplog] != nil
-//@   modifies t.catalog, t.dirty, ghost.tainted, ghost.cov, ghost.tree
+//@   modifies t.catalog, t.dirty, ghost.tainted, ghost.cov, ghost.tree, ghost.appended, ghost.removed
 //@   ensures [C02 name=error-leaves-state] imp(err != nil, t.catalog == old(t.catalog) && t.dirty == old(t.dirty))
 //@   ensures [C02,C15 name=published-clean] cleanCatalog(t.catalog)
+//@   ensures [C08 name=one-event-per-deleted] imp(err == nil, appendedBy(len(result0.Matched)))
 
 // Expire (C19): the pass publishes its working catalog exactly when some
 // collection lost documents - a pass that expired something anywhere is not
@@ -250,11 +270,13 @@ package lungo
 //@   locals clone oplog deletions ttlIndexes
 //@   requires t != nil && cleanCatalog(t.catalog) && has(t.catalog.Namespaces, Oplog) && t.catalog.Namespaces[Oplog] != nil
 //@   requires all(h, "(Array Int Str)", imp(has(t.catalog.Namespaces, h), t.catalog.Namespaces[h] != nil))
-//@   modifies t.catalog, t.dirty, ghost.tainted, ghost.cov, ghost.tree, ghost.removed
+//@   modifies t.catalog, t.dirty, ghost.tainted, ghost.cov, ghost.tree, ghost.appended, ghost.removed
 //@   ensures [C02 name=error-leaves-state] imp(result != nil, t.catalog == old(t.catalog) && t.dirty == old(t.dirty))
 //@   ensures [C19 name=deletions-published] imp(result == nil && ghost.removed > old(ghost.removed), t.catalog != old(t.catalog) && t.dirty)
 //@   ensures [C19 name=nothing-deleted-nothing-published] imp(result == nil && ghost.removed == old(ghost.removed), t.catalog == old(t.catalog) && t.dirty == old(t.dirty))
+//@   ensures [C08,C19 name=one-event-per-expired] imp(result == nil, ghost.appended - old(ghost.appended) == ghost.removed - old(ghost.removed))
 //@   loop 0 invariant deletions >= 0 && deletions == ghost.removed - old(ghost.removed) && t.catalog == old(t.catalog) && t.dirty == old(t.dirty)
+//@   loop 0 invariant deletions == ghost.appended - old(ghost.appended)
 //@   loop 0 invariant clone != nil && fresh(clone) && clone.Namespaces != nil && fresh(clone.Namespaces) && oplog != nil && fresh(oplog)
 //@   loop 1 invariant cap(ttlIndexes) == 0 || fresh(ttlIndexes)
 //@   loop 2 invariant true
@@ -321,7 +343,7 @@ package lungo
 //@ func (*Session).CommitTransaction
 //@   tags C16 C03
 //@   requires s != nil && s.engine != nil && s.engine.token != nil && s.engine.store != nil && bal(s.engine) >= 0
-//@   modifies s.txn, s.engine.txn, s.engine.catalog, ghost.held, comp(Transaction.catalog), comp(Transaction.dirty)
+//@   modifies s.txn, s.engine.txn, s.engine.catalog, ghost.held, comp(Transaction.catalog), comp(Transaction.dirty), ghost.tainted, ghost.cov, ghost.tree
 //@   ensures [C16 name=balance] bal(s.engine) == old(bal(s.engine))
 //@   ensures [C16 name=session-cleared] imp(!s.ended, s.txn == nil)
 //@   ensures [C16 name=engine-finished] imp(ghost.alive && !s.ended && old(s.txn) != nil && old(s.txn) == old(s.engine.txn), s.engine.txn == nil)
@@ -352,3 +374,98 @@ package lungo
 //@   ensures [C16 name=balance] bal(s.engine) == old(bal(s.engine))
 //@   ensures [C16 name=finished] imp(ghost.alive && !s.ended && old(s.txn) == nil && !old(s.starting), s.txn == nil)
 //@   panics [C16 name=released-on-panic] bal(s.engine) == old(bal(s.engine)) && imp(ghost.alive && !s.ended, s.txn == nil && s.engine.txn == nil)
+
+// ---------------------------------------------------------------------------
+// store.go / file.go (C05): a successful FileStore.Store means the bytes went
+// through AtomicWriteFile and are durable; BuildFile only reads the catalog.
+//@ define storable(cat) = all(h, "(Array Int Str)", imp(has(cat.Namespaces, h), cat.Namespaces[h] != nil && cat.Namespaces[h].Documents != nil))
+//@ func BuildFile
+//@   tags C05 C06
+//@   opt loopframe = on
+//@   locals file indexes
+//@   requires catalog != nil && storable(catalog)
+//@   modifies nothing
+//@   ensures [C05,C06 name=fresh-file] result != nil && fresh(result)
+//@ func (*FileStore).Store
+//@   tags C05
+//@   uses fs
+//@   requires s != nil && catalog != nil && storable(catalog)
+//@   modifies ghost.fsVol, ghost.fsSynced, ghost.fsEntryDurable, ghost.fsName
+//@   ensures [C05 name=success-means-durable] imp(result == nil, ghost.fsSynced[s.path] && ghost.fsEntryDurable[s.path])
+//@   ensures [C05 name=never-torn] ghost.fsVol[s.path] == old(ghost.fsVol)[s.path] || ghost.fsSynced[s.path]
+// FileStore.Load: whatever the file holds, a catalog that is returned consists of
+// coherent collections (an absent file gives the empty catalog).
+//@ func (*FileStore).Load
+//@   tags C15 C06
+//@   requires s != nil
+//@   ensures [C15,C06 name=loaded-coherent] imp(err == nil, result0 != nil && result0.Namespaces != nil && all(h, "(Array Int Str)", imp(has(result0.Namespaces, h), coherentColl(result0.Namespaces[h]))))
+//@   ensures [C06 name=error-no-catalog] imp(err != nil, result0 == nil)
+// MemoryStore: what was stored last is what is loaded (C06 for the memory store,
+// and the store side of Commit's publication, C03).
+//@ func (*MemoryStore).Store
+//@   tags C03 C06
+//@   requires m != nil
+//@   modifies m.catalog
+//@   ensures [C03,C06 name=kept] result == nil && m.catalog == data
+//@ func (*MemoryStore).Load
+//@   tags C03 C06
+//@   requires m != nil
+//@   modifies nothing
+//@   ensures [C03,C06 name=last-stored] err == nil && result0 == m.catalog
+
+// ---------------------------------------------------------------------------
+// transaction.go, the remaining public methods.
+// Drop: one "drop" event per namespace removed, one more for a dropped database,
+// nothing published and nothing changed when no namespace matched; local.* is
+// read only; an error leaves the transaction as it was.
+//@ func (*Transaction).Drop
+//@   tags C02 C03 C08 C01
+//@   opt loopframe = on
+//@   opt overflow = checked
+//@   locals clone oplog dropped ns err
+//@   requires t != nil && cleanCatalog(t.catalog) && has(t.catalog.Namespaces, Oplog) && t.catalog.Namespaces[Oplog] != nil
+//@   modifies t.catalog, t.dirty, ghost.tainted, ghost.cov, ghost.tree, ghost.appended
+//@   ensures [C02 name=error-leaves-state] imp(result != nil, t.catalog == old(t.catalog) && t.dirty == old(t.dirty))
+//@   ensures [C01 name=local-is-read-only] imp(handle[0] == Local, result != nil)
+//@   ensures [C08 name=one-event-per-dropped-namespace] imp(result == nil, appendedBy(dropped + ite(handle[1] == "" && dropped > 0, 1, 0)))
+//@   ensures [C08,C01 name=nothing-dropped-nothing-published] imp(result == nil && dropped == 0, t.catalog == old(t.catalog) && t.dirty == old(t.dirty))
+//@   ensures [C01,C03 name=dropped-published] imp(result == nil && dropped > 0, t.catalog != old(t.catalog) && fresh(t.catalog) && t.dirty)
+//@   loop 0 invariant clone != nil && fresh(clone) && clone.Namespaces != nil && fresh(clone.Namespaces) && oplog != nil && fresh(oplog)
+//@   loop 0 invariant dropped >= 0 && appendedBy(dropped)
+//@   loop 0 invariant t.catalog == old(t.catalog) && t.dirty == old(t.dirty)
+// Find: read only; an unknown namespace yields the empty result; otherwise the
+// matched documents are the window [skip, skip+limit) of the filtered (and
+// sorted) document list of the namespace - the collection's answer, passed on.
+//@ func (*Transaction).Find
+//@   tags C01 C13 C03
+//@   opt slices = value
+//@   uses lists
+//@   requires t != nil && t.catalog != nil && t.catalog.Namespaces != nil && query != nil
+//@   requires all(h, "(Array Int Str)", imp(has(t.catalog.Namespaces, h) && t.catalog.Namespaces[h] != nil, t.catalog.Namespaces[h].Documents != nil))
+//@   let ns = t.catalog.Namespaces[handle]
+//@   let known = has(t.catalog.Namespaces, handle) && ns != nil
+//@   let base = ite(sort != nil && len(*sort) > 0, spec.sortedBy(ns.Documents.List, *sort, docs()), ns.Documents.List)
+//@   let F = spec.filtered(base, *query, docs())
+//@   let lo = ite(skip < len(F), skip, len(F))
+//@   let hi = ite(limit > 0 && skip + limit < len(F), skip + limit, len(F))
+//@   modifies nothing
+//@   ensures [C01 name=unknown-namespace-is-empty] imp(handle[0] != "" && handle[1] != "" && !known, err == nil && result0 != nil && len(result0.Matched) == 0)
+//@   ensures [C13,C01 name=window] imp(err == nil && known, result0 != nil && len(result0.Matched) == hi - lo && forall(i, 0, hi - lo, result0.Matched[i] == F[lo + i]))
+//@   ensures [C01 name=error-no-result] imp(err != nil, result0 == nil)
+// CountDocuments: the length of the namespace's document list, 0 for an unknown namespace.
+//@ func (*Transaction).CountDocuments
+//@   tags C01
+//@   requires t != nil && t.catalog != nil && t.catalog.Namespaces != nil
+//@   requires all(h, "(Array Int Str)", imp(has(t.catalog.Namespaces, h), t.catalog.Namespaces[h] != nil && t.catalog.Namespaces[h].Documents != nil))
+//@   modifies nothing
+//@   ensures [C01 name=count-is-list-length] imp(err == nil, result0 == ite(has(t.catalog.Namespaces, handle), len(t.catalog.Namespaces[handle].Documents.List), 0))
+//@   ensures [C01 name=complete-handle-never-fails] imp(handle[0] != "" && handle[1] != "", err == nil)
+//@ func (*Transaction).DropIndexByKey
+//@   tags C02 C03 C15
+//@   opt loopframe = on
+//@   locals name n index
+//@   requires t != nil && cleanCatalog(t.catalog) && key != nil
+//@   modifies t.catalog, t.dirty, ghost.tainted, ghost.cov, ghost.tree
+//@   ensures [C02 name=error-leaves-state] imp(result != nil, t.catalog == old(t.catalog) && t.dirty == old(t.dirty))
+//@   ensures [C02,C15 name=published-clean] cleanCatalog(t.catalog)
+//@   loop 0 invariant t.catalog == old(t.catalog) && t.dirty == old(t.dirty)
